@@ -1138,7 +1138,7 @@ func factsC07() {
 		if o.cap >= 0 {
 			c = fmt.Sprintf("some %d", o.cap)
 		}
-		fmt.Fprintf(&os_, "(%s, %s, %s, %s, %s, %s)", c07lean(o.body), c07lean(o.fn), c07lean(o.kind), c07lean(o.ch), boolLit(o.cancelAlt), c)
+		fmt.Fprintf(&os_, "(%s, %s, %s, %s, %s, %s)", c07lean(o.body), c07lean(o.fn), c07lean(o.kind), c07lean(c07normLabel(o.ch)), boolLit(o.cancelAlt), c)
 	}
 	os_.WriteString("]")
 	gv, ov := gs.String(), os_.String()
@@ -1337,4 +1337,26 @@ func factsC07() {
 		"subprocess.go newSubProcess: the inner tracer runs under a context derived from context.Background() and no goroutine of newSubProcess cancels it when another Done() channel (the parent tracer's) fires")
 	add("C07", "taskRequestCarriesRunCtx", "Bool", ctxFact,
 		"task_generic.go genericTask.run: the TaskTrace is built with .Context(ctx), ctx being the run loop's context")
+}
+
+// c07normLabel: the label of a blocking operation without the NAME of the variable it starts from — `m.response` and
+// `req.response` are the same operation (`_.response`), `ch` and `out` are `_`; the alternatives of a select keep their
+// `recv:` / `send:` prefixes. What identifies an operation is the function it sits in, its kind and the path from the
+// variable to the channel, not what a local variable or a receiver is called.
+func c07normLabel(l string) string {
+	parts := strings.Split(l, "|")
+	for i, p := range parts {
+		pre, e := "", p
+		if k := strings.Index(p, ":"); k >= 0 {
+			pre, e = p[:k+1], p[k+1:]
+		}
+		e = strings.TrimPrefix(e, "*")
+		if d := strings.Index(e, "."); d >= 0 {
+			e = "_" + e[d:]
+		} else {
+			e = "_"
+		}
+		parts[i] = pre + e
+	}
+	return strings.Join(parts, "|")
 }
